@@ -4,7 +4,7 @@
    literals as reference values, the listed Array/String methods) and pug's semantics of
    tags, text, code, conditionals, case, each, while and mixins (closures for blocks).
    It does not mention templates, pipelines or helpers.  [SOff] = outside the property's
-   domain (never a violation); [SErr] = the error the property prescribes (while cap). *)
+   domain (never a violation); [SErr fl] = the error the property prescribes (while cap), with the deviation flags raised on the way. *)
 From PV Require Import Base.Bytes Base.Escape Js.Ast Pug.Ast.
 Local Open Scope Z_scope.
 
@@ -14,10 +14,10 @@ Inductive jv :=
 Inductive jobj := JArrO (items : list jv) | JObjO (props : list (bytes * jv)).  (* insertion order *)
 Definition jheap := list jobj.
 
-Inductive sres (A : Type) : Type := SOk (a : A) | SErr | SOff | SFuel.
-Arguments SOk {A} a. Arguments SErr {A}. Arguments SOff {A}. Arguments SFuel {A}.
+Inductive sres (A : Type) : Type := SOk (a : A) | SErr (flags : list nat) | SOff | SFuel.
+Arguments SOk {A} a. Arguments SErr {A} flags. Arguments SOff {A}. Arguments SFuel {A}.
 Definition sbind {A B} (r : sres A) (f : A -> sres B) : sres B :=
-  match r with SOk a => f a | SErr => SErr | SOff => SOff | SFuel => SFuel end.
+  match r with SOk a => f a | SErr fl => SErr fl | SOff => SOff | SFuel => SFuel end.
 Notation "'sdo' x <- r ; k" := (sbind r (fun x => k)) (at level 200, x pattern, r at level 100, k at level 200).
 
 Definition jalloc (h : jheap) (o : jobj) : nat * jheap := (length h, h ++ [o]).
@@ -542,9 +542,10 @@ Definition c_block (c : closure) := let '(Closure _ _ b) := c in b.
 
 Record mixin := { m_params : list bytes; m_body : list pnode }.
 
+(* HTML5 (W3C Recommendation 2014, section 8.1.2) plus `command`, void in the HTML5 drafts of 2011-2013 *)
 Definition void_tags : list bytes :=
-  [B "area"; B "base"; B "br"; B "col"; B "embed"; B "hr"; B "img"; B "input"; B "link"; B "meta";
-   B "param"; B "source"; B "track"; B "wbr"].
+  [B "area"; B "base"; B "br"; B "col"; B "embed"; B "hr"; B "img"; B "input"; B "keygen"; B "link";
+   B "meta"; B "param"; B "source"; B "track"; B "wbr"; B "command"].
 
 Definition while_limit : nat := 100 * 100.       (* completed iterations allowed; a test still true after that many is the prescribed error *)
 
@@ -769,7 +770,12 @@ Section Nodes.
              | JB false => SOk (s1, m)
              | JB true =>
                match budget with
-               | O => SErr
+               | O =>
+                 (* the bound is used up and the test is still true: the prescribed error.  The engine notices
+                    after one more round (body, test); S runs that round too, so that a round which is itself
+                    outside the domain makes the whole case outside the domain *)
+                 sdo r <- sem_nodes f m blk s1 body; let '(s2, _) := r in
+                 sdo t <- sem_expr efuel s2 test; SErr (s_flags (snd t))
                | S b =>
                  sdo r <- sem_nodes f m blk s1 body; let '(s2, m2) := r in loop b f2 s2 m2
                end
@@ -880,7 +886,7 @@ Definition sem_run (nodes : list pnode) (data : list (bytes * sdata)) : sout :=
   let s0 := {| s_env := env; s_heap := h; s_out := []; s_flags := []; s_grown := [] |} in
   match sem_nodes env sem_fuel [] None s0 nodes with
   | SOk (s, _) => SOut (soutput s) (s_flags s)
-  | SErr => SError []
+  | SErr fl => SError fl
   | SOff => SOffDomain
   | SFuel => SNoFuel
   end.
